@@ -116,6 +116,12 @@ def impl_init():
         t = sn.getlayer("TCP")
         ip = IP(src=sn.src, dst=sn.dst, ttl=sn.ttl, tos=sn.tos, id=sn.id, flags=sn.flags) if s["v"] == 4 else IPv6(src=sn.src, dst=sn.dst, hlim=sn.hlim, tc=sn.tc, fl=sn.fl)
         tcp = TCP(sport=t.sport, dport=t.dport, seq=t.seq, ack=t.ack, flags=int(t.flags), window=t.window, urgptr=t.urgptr, options=list(t.options))
+        if (s["seq"] + s["ttl"] + s["win"]) % 5 == 0:
+            # a length field that is explicitly 0 (as segmentation-offload captures have it): the caller's header says so, before and after
+            if s["v"] == 4:
+                ip.len = 0
+            else:
+                ip.plen = 0
         p = ip / tcp
         if s["payload"]:
             p = p / Raw(load=bytes.fromhex(s["payload"]))
